@@ -12,6 +12,7 @@ EXPLANATION = (
     "R3 the proposer reward (linear forms: base = fee_pool>>16, Δfee_pool = -base, tips := 0, coin value = base + old tips, "
     "coin fields' provenance, call only under Some(action))."
     " R3 also requires the three effects (fee-pool debit, tips reset, reward coin) on EVERY path of collect_proposer_action_fee (a special-case early return that skips one of them is reported); `mem::replace(&mut self.tips, 0)` is read as read-then-zero."
+    " Shared: C03.R5 (no new mutable global state on the fee path) and C01.R10 (fee pool and tips do not wrap)."
 )
 NOT_DECIDED = [
     "the numeric definition of Transaction::weight / base_fee (trusted base melstructs, version recorded)",
